@@ -5,7 +5,7 @@ import decimal
 import uuid
 
 from vf.ref.xsdlex import INT_RANGES, XS_OF
-from vf.tagged import tz
+from vf.tagged import tz, Chunks
 
 D = decimal.Decimal
 
@@ -149,7 +149,10 @@ def durations():
 def byte_strings():
     out = [('empty', b''), ('one-zero', b'\x00'), ('len1', b'a'), ('len2', b'ab'), ('len3', b'abc'), ('len4', b'abcd'),
            ('ramp-256', bytes(range(256))), ('high-bits', b'\xff\xfe\xfd'), ('len57', bytes(range(57))),
-           ('len58', bytes(range(58))), ('len100', bytes(range(100)))]
+           ('len58', bytes(range(58))), ('len100', bytes(range(100))),
+           # the native form is a *sequence of chunks*: chunk boundaries off the 3-byte base64 groups, empty chunks
+           ('chunks-1+2', Chunks([b'a', b'bc'])), ('chunks-2+2+1', Chunks([b'ab', b'cd', b'e'])),
+           ('chunks-0+3+0', Chunks([b'', b'abc', b''])), ('chunks-tuple-4+1', Chunks([b'\xff\x00\x01\x02', b'z'], True))]
     return out
 
 
